@@ -7,7 +7,7 @@ import numpy as np
 
 from ..core import SimCrash, HarnessError, canon, sha_array, bits_equal, Violation
 from ..simfs import SimFS, SimDisk, Patched
-from ..snapshot import snap, diff as snapdiff
+from ..snapshot import snap, semantic_snap, diff as snapdiff
 
 
 def _mods():
@@ -203,7 +203,7 @@ def op_write_read(ctx, st, op, prop, info):
         path = op["path"] + "." + which
         dmc, dfn = op["dmc"], op["dfn"]
         in_domain = _accepted_ok(obj)
-        before = snap(obj)
+        before = semantic_snap(obj)
         fault = copy.deepcopy(op.get("fault"))
         # --- dry run on a scratch disk: is the write defined at all, and how long is it?
         scratch = SimFS(SimDisk(), None)
@@ -217,11 +217,11 @@ def op_write_read(ctx, st, op, prop, info):
                 ctx.check(not in_domain, "write_raised_in_domain",
                           f"{which}: writing raised {type(e).__name__}: {e} although at least two windows are accepted",
                           key={"which": which})
-                d = snapdiff(before, snap(obj))
+                d = snapdiff(before, semantic_snap(obj))
                 ctx.check(d is None, "failed_write_changed_object", f"{which}: {d}", key={"which": which})
             continue
         if judge:
-            d = snapdiff(before, snap(obj))
+            d = snapdiff(before, semantic_snap(obj))
             ctx.check(d is None, "write_changed_object", f"{which}: writing changed the object: {d}",
                       key={"which": which})
         # --- the real write, possibly under a fault
@@ -260,7 +260,7 @@ def op_write_read(ctx, st, op, prop, info):
                 log.append([which, "write_failed", fault["kind"], fault["at"]])
                 ctx.probe("write_failed")
                 if judge:
-                    d = snapdiff(before, snap(obj))
+                    d = snapdiff(before, semantic_snap(obj))
                     ctx.check(d is None, "failed_write_changed_object",
                               f"{which}: a failed write changed the object: {d}", key={"which": which})
                     if fs.exists(path):      # (an implementation writing to a temporary name leaves no file here)
